@@ -9,6 +9,8 @@ token a run produces, decided on the AST of /repo's current source:
 import ast
 from pathlib import Path
 
+from .contracts import REGISTRY
+
 CURSOR = {"start", "pos", "tokens", "query"}
 LIST_MUT = {"append", "extend", "insert", "pop", "remove", "clear", "sort", "reverse", "__setitem__", "__delitem__"}
 
@@ -59,8 +61,6 @@ def lex_frame_obligations(repo="/repo"):
                 bad.append(f"lex.py:{line} stores .{attr}")
     out.append({"id": "lex:frame/cursor-fields-stored-only-by-Lexer-methods", "status": "ok" if not bad else "violated", "detail": bad[:5]})
     # 2. Lexer methods under contract are all the methods of the class that store a cursor field
-    from .contracts import REGISTRY
-
     missing = []
     for top in tree.body:
         if isinstance(top, ast.ClassDef) and top.name == "Lexer":
@@ -88,6 +88,43 @@ def lex_frame_obligations(repo="/repo"):
                 if not (in_init and self_store):
                     bad.append(f"{p.name}:{line} stores .{attr} outside a constructor")
     out.append({"id": "tokens:frame/token-offset-and-text-stored-only-by-constructors", "status": "ok" if not bad else "violated", "detail": bad[:5]})
+    # 4. the driver Lexer.run calls whatever `state` holds through the contract of lex_root: every state function (every
+    #    module-level function of lex.py taking the lexer `l`, and the closure made by lex_string_factory) must carry
+    #    exactly that contract
+    state_fns = [t.name for t in tree.body if isinstance(t, ast.FunctionDef) and [a.arg for a in t.args.args] == ["l"]]
+    keys = ["lex:" + n for n in state_fns] + ["lex:lex_string_factory.<locals>._lex_string"]
+    ref = REGISTRY.get("lex:lex_root")
+    diff = []
+    for k in keys:
+        c = REGISTRY.get(k)
+        if c is None or ref is None:
+            diff.append(k + ": no contract")
+            continue
+        extra_req = [r for r in c.requires if r not in ref.requires]
+        closure_ok = k.endswith("_lex_string") and all(("quote" in r or "tt" in r) for r in extra_req)
+        if ((extra_req and not closure_ok) or c.ensures != ref.ensures or c.raises != ref.raises
+                or c.raises_ensures != ref.raises_ensures or c.mutates != ref.mutates or c.trusted or c.heavy):
+            diff.append(k + ": contract differs from lex_root's")
+    out.append({"id": "lex:frame/state-functions-share-the-contract-of-lex_root", "status": "ok" if not diff else "violated", "detail": diff[:5]})
+    # 5. a state function returns None, another state function, or a closure bound at module level by lex_string_factory
+    closures = {t.targets[0].id for t in tree.body if isinstance(t, ast.Assign) and len(t.targets) == 1 and isinstance(t.targets[0], ast.Name)
+                and isinstance(t.value, ast.Call) and isinstance(t.value.func, ast.Name) and t.value.func.id == "lex_string_factory"
+                and len(t.value.args) == 2 and isinstance(t.value.args[1], ast.Name) and t.value.args[1].id in state_fns}
+    bad = []
+    fns = [t for t in tree.body if isinstance(t, ast.FunctionDef) and t.name in state_fns]
+    for t in tree.body:
+        if isinstance(t, ast.FunctionDef) and t.name == "lex_string_factory":
+            fns += [x for x in t.body if isinstance(x, ast.FunctionDef)]
+    for f in fns:
+        for n in ast.walk(f):
+            if isinstance(n, ast.Return):
+                v = n.value
+                ok = v is None or (isinstance(v, ast.Constant) and v.value is None) or (
+                    isinstance(v, ast.Name) and (v.id in state_fns or v.id in closures or (f.name == "_lex_string" and v.id == "state")))
+                if not ok:
+                    bad.append(f"lex.py:{n.lineno} {f.name} returns {ast.unparse(v)}")
+    # Lexer.run starts from lex_root and only ever assigns the result of a state call
+    out.append({"id": "lex:frame/state-functions-return-state-functions-or-None", "status": "ok" if not bad else "violated", "detail": bad[:5]})
     return out
 
 
